@@ -146,9 +146,22 @@ func runC18(c *Ctx) {
 		sargs := signStep.In.(ssa.CallInstruction).Common().Args
 		eargs := encStep.In.(ssa.CallInstruction).Common().Args
 		fargs := fmtStep.In.(ssa.CallInstruction).Common().Args
-		ceCell := pa.Resolve(signStep, sargs[2])
-		encV := pa.Resolve(signStep, sargs[3])
-		bufV := pa.Resolve(signStep, sargs[4])
+		// sign's arguments by type: (ctx, *Event, *json.Encoder, *bytes.Buffer)
+		var ceCell, encV, bufV ssa.Value
+		for _, a := range sargs[1:] {
+			switch typeShort(a.Type()) {
+			case "cloudevents.Event":
+				ceCell = pa.Resolve(signStep, a)
+			case "json.Encoder":
+				encV = pa.Resolve(signStep, a)
+			case "bytes.Buffer":
+				bufV = pa.Resolve(signStep, a)
+			}
+		}
+		if ceCell == nil || encV == nil || bufV == nil || len(sargs) < 2 {
+			r.Bad("C18.process", "Process:objects", p.InstrPos(signStep.In), "sign is not handed the cloudevent, the encoder that produced the unsigned document and its buffer: the signed document would not be re-encoded with the same settings (indentation) into the same buffer")
+			continue
+		}
 		okObj := stb.Of(sargs[1]).IsParam("1:ctx") && pa.Resolve(encStep, eargs[0]) == encV
 		// Encode(ce): the value encoded is a load of the ce cell
 		if ld, ok := stripConv(pa.Resolve(encStep, eargs[1])).(*ssa.UnOp); !ok || ld.X != ceCell {
